@@ -20,7 +20,7 @@ CLAIMED = {
 }
 props = [json.loads(l) for l in open(f'{ROOT}/properties.jsonl')]
 NA_REASON = json.load(open(f'{ROOT}/tools/not_claimed.json'))
-hook_commits = []
+hook_commits = ['90905ee']
 checks = []
 for p in props:
     i = p['id']
@@ -46,7 +46,7 @@ m = {
  'setup_cmd': './setup.sh',
  'hooks': {
    'guard': '--cfg veryl_verif',
-   'enable': 'build.rustflags contain `--cfg veryl_verif` (set in /verif/harness/.cargo/config.toml and /verif/build_cli.sh); no hook has been needed so far, so /repo has no guarded code yet',
+   'enable': 'build.rustflags contain `--cfg veryl_verif` (set in /verif/harness/.cargo/config.toml); every harness binary, including the real veryl / veryl-ls binaries (harness packages vcli / vls whose bin targets are /repo\'s own main.rs files), is built by ./check with the guard on. Hooks: veryl_path::verif::point (write/lock/cache-store step markers: log, crash-at-k, pause on a socket) and veryl_simulator::backend::aot_c::verif_gate (swap point of the asynchronous C backend)',
    'baseline_off_cmd': 'cd /repo && cargo test --workspace --no-fail-fast --offline',
    'source_commits': hook_commits,
    'add_only': True,
